@@ -104,6 +104,7 @@ class Spec:
         self.abstract_comprehensions = set()   # (qualname, ordinal) whose value is Untracked
         self.truthy_classes = set()            # Obj class tags whose instances are always truthy (e.g. re.Match)
         self.stop = None                       # (qualname, lineno, callback(I, frame)): verify a prefix of a long function
+        self.order_keys = {}                   # Obj class tag -> UF(Obj) -> Int giving a total order (e.g. dates by ordinal)
 
 
 def assigned_and_mutated(body):
@@ -288,6 +289,9 @@ class Interp:
             return r
         if isinstance(a, SymOpt) or isinstance(b, SymOpt):
             raise Unsupported('== on Optional')
+        if isinstance(a, Obj) and isinstance(b, Obj) and a.cls == b.cls and a.cls in self.spec.order_keys:
+            key = self.spec.order_keys[a.cls]
+            return key(a.expr) == key(b.expr)
         if isinstance(a, tuple) and isinstance(b, tuple):
             if len(a) != len(b):
                 return False
@@ -1293,6 +1297,9 @@ class Interp:
             if isinstance(op, ast.NotIn):
                 r = self.neg(r)
             return r
+        if isinstance(a, Obj) and isinstance(b, Obj) and a.cls == b.cls and a.cls in self.spec.order_keys:
+            key = self.spec.order_keys[a.cls]
+            a, b = key(a.expr), key(b.expr)
         conc = (int, float, str, bool)
         if isinstance(a, conc) and isinstance(b, conc):
             try:
